@@ -49,7 +49,8 @@ def cases(tier, seed):
         if F_h("m6@47", 6) == 2:
             base_res = [b0, 2 * b0]                              # several base coolers
         case = {"table": table, "mode": mode, "binsize": b0, "px": px, "resolutions": res, "base_res": base_res,
-                "chunk": rng.choice([1, 2, 5, 10 ** 6]), "nproc": 2 if F_h("m23@50", 23) == 9 else 1}
+                "chunk": rng.choice([1, 2, 5, 10 ** 6]), "nproc": 2 if F_h("m23@50", 23) == 9 else 1,
+                "tagged": F_h("tagged", 2) == 1}
         if F_h("m9@51", 9) == 6:
             case["via"] = "cli"
         if F_h("m6@53", 6) == 4:
@@ -131,6 +132,8 @@ def run(tier, seed, only_case=None):
     if only_case is None:
         # (the store-heavy thorough instance belongs to C08; here the resolution sets grow: MaxRes 12)
         r.model_check("MC_Coarsen", "MC_Coarsen_quick.cfg" if tier == "quick" else "MC_Coarsen_zoom.cfg", timeout=3000)
+        # the pinned predecessor relation (defect F30: a base that a smaller base divides was re-derived and overwritten) is refuted
+        r.expect_refuted("MC_Coarsen", "MC_Coarsen_predpinned.cfg", "BasesAreCopiedNotRederived")
         cs = cases(tier, seed)
     else:
         cs = [only_case]
